@@ -173,6 +173,35 @@ def run(db, chk):
     n_sc = 0
     for fn in fns:
         at_one = {o[0] for o in classify(fn, Interval(1.0, 1.0), True)}
+        if at_one == {()}:
+            # the setter records nothing but the exponent: a classification member initialised by the
+            # constructor from the exponent is then stale after set_slope_exp
+            stale = []
+            for c in fn.unit.fns.values():
+                if c.cls != SPL or not c.is_ctor:
+                    continue
+                exp_params = set()
+                for call in calls(c.body):
+                    if call.get("bn") == SPL + "::set_slope_exp":
+                        exp_params |= {r.get("d") for a in call.get("a", []) for r in walk(a)
+                                       if r.get("k") == "ref" and r.get("rk") == "param"}
+                for ini in c.d.get("inits", []) or []:
+                    if ini.get("field") == "m_slope_exp" and ini.get("init") is not None:
+                        exp_params |= {r.get("d") for r in walk(ini["init"]) if r.get("k") == "ref" and r.get("rk") == "param"}
+                for ini in c.d.get("inits", []) or []:
+                    if ini.get("field") != "m_slope_exp" and ini.get("init") is not None and \
+                            any(r.get("k") == "ref" and r.get("rk") == "param" and r.get("d") in exp_params
+                                for r in walk(ini["init"])):
+                        stale.append((c, ini))
+            if not stale:
+                raise AnalysisBroken("C13-L1: set_slope_exp records no classification and the constructor derives none "
+                                     "from the exponent: the classification is made elsewhere")
+            for c, ini in stale:
+                chk.ob("C13-L1", "%s is derived from the exponent by the constructor only" % ini["field"], False,
+                       where=fn.ploc, function=fn.bn, construct="classification(stale)",
+                       detail="set_slope_exp does not update it: after the setter the classification is that of "
+                       "the exponent given at construction", extra={"unit": fn.unit.name})
+            continue
         if len(at_one) != 1 or not list(at_one)[0]:
             raise AnalysisBroken("C13-L1: set_slope_exp(1) records no definite classification (%r)" % (at_one,))
         at_one = list(at_one)[0]
